@@ -47,7 +47,7 @@ func c15cliResolve(env []string, key string, lastWins, cs bool) (string, bool) {
 		k := e[:i]
 		m := k == key
 		if !cs {
-			m = strings.EqualFold(k, key)
+			m = c15cliAsciiFold(k) == c15cliAsciiFold(key)
 		}
 		if m {
 			if found && !lastWins {
@@ -141,4 +141,17 @@ func TestVerifC15Deps(t *testing.T) {
 			}
 		}
 	}
+}
+
+// c15cliAsciiFold folds ASCII letters only: environment names are compared case-insensitively the way a
+// case-insensitive platform does for the guarded keys (all ASCII); Unicode case mapping would
+// make unrelated names such as "GOWOR\u212a" (Kelvin sign) look like a guarded key.
+func c15cliAsciiFold(s string) string {
+	b := []byte(s)
+	for i, c := range b {
+		if c >= 'a' && c <= 'z' {
+			b[i] = c - 32
+		}
+	}
+	return string(b)
 }
